@@ -69,10 +69,6 @@ theorem C06_each_pub_once (th0 : List TS) (h0 : ∀ x ∈ th0, x.loc = .idle) {s
 
 /-! ### Non-vacuity: a complete execution (two threads, three calls, one batch of two callers) -/
 
-def runActs (s : St) : List Act → Option St
-  | [] => some s
-  | a :: t => (step s a).bind (fun s' => runActs s' t)
-
 theorem reachable_run (th0 : List TS) : ∀ (acts : List Act) (s s' : St), Reachable th0 s → runActs s acts = some s' → Reachable th0 s'
   | [], s, s', hr, h => by simp only [runActs, Option.some.injEq] at h; exact h ▸ hr
   | a :: t, s, s', hr, h => by
